@@ -213,6 +213,7 @@ def main(argv=None):
     # ---------------------------------------------------------------- aggregate
     cnt: dict = {}
     mx: dict = {}
+    mx_at: dict = {}
     hashes = set()
     nontrivial_hashes = set()
     samples = []
@@ -228,6 +229,8 @@ def main(argv=None):
         for k, v in (r.get("max") or {}).items():
             if k not in mx or v > mx[k]:
                 mx[k] = v
+                cc = r.get("_case") or {}
+                mx_at[k] = f"{cc.get('id')} cls={cc.get('cls') or (cc.get('net') or {}).get('cls')}"
         for h in r.get("nt_hashes") or ([r["hash"]] if r.get("nontrivial") and r.get("hash") else []):
             nontrivial_hashes.add(h)
         if r.get("hash"):
@@ -299,6 +302,7 @@ def main(argv=None):
                 "distinct_cases": len(hashes),
                 "monitor_counters": dict(sorted(cnt.items())),
                 "monitor_maxima": dict(sorted(mx.items())),
+                "monitor_maxima_attained_by": dict(sorted(mx_at.items())),
                 "input_classes": dict(sorted(classes.items())),
                 "inconclusive_cases": incon,
                 "inconclusive_examples": incon_examples,
